@@ -500,3 +500,65 @@ def _flow_probe(indict, ana, seed):
                 worst = float(err)
                 detail = "two-step law violated for %s: step(0.4) then step(0.9) = %s, step(1.3) = %s" % (av[i], b2[i], c2[i])
     return {"worst": worst, "detail": detail}
+
+
+def run_c08(task):
+    """analysis() with options/parameters; returns the solver dictionaries plus, per solver and per
+    key, the free symbols of every expression (parsed independently) and exact/numeric values of the
+    initial values and parameters."""
+    import signal
+    import sympy
+    import odetoolbox
+    from odetoolbox.config import Config
+    from . import impl_worker
+    defaults = dict(Config.config)
+
+    def handler(signum, frame):
+        raise _Alarm()
+    old = signal.signal(signal.SIGALRM, handler)
+    signal.alarm(int(task.get("api_timeout", 25)))
+    try:
+        try:
+            res = odetoolbox.analysis(task["indict"], disable_stiffness_check=True, **task.get("flags", {}))
+            signal.alarm(0)
+        except _Alarm:
+            return {"outcome": "Ok", "api": "Timeout"}
+        except BaseException as e:   # noqa
+            signal.alarm(0)
+            if isinstance(e, KeyboardInterrupt):
+                raise
+            return {"outcome": "Ok", "api": impl_worker.classify_exception(e), "detail": str(e)[:300]}
+        finally:
+            signal.alarm(0)
+            signal.signal(signal.SIGALRM, old)
+        ns = {"Symbol": sympy.Symbol, "Integer": sympy.Integer, "Float": sympy.Float, "Rational": sympy.Rational, "exp": sympy.exp, "log": sympy.log,
+              "sin": sympy.sin, "cos": sympy.cos, "tanh": sympy.tanh, "e": sympy.E, "E": sympy.E, "min": sympy.Min, "max": sympy.Max, "Heaviside": sympy.Heaviside,
+              "sqrt": sympy.sqrt, "Abs": sympy.Abs, "I": sympy.I, "pi": sympy.pi, "cosh": sympy.cosh, "sinh": sympy.sinh}
+        out = {"outcome": "Ok", "api": "Ok", "solvers": res, "syms": [], "ivs": [], "params": []}
+        psub = {}
+        for k, v in (task["indict"].get("parameters") or {}).items():
+            psub[k] = v
+        for s in res:
+            tab = {}
+            for key in ("update_expressions", "propagators", "initial_values"):
+                if key in s:
+                    ss = set()
+                    per = {}
+                    for name, ex in s[key].items():
+                        e = sympy.parsing.sympy_parser.parse_expr(str(ex), global_dict=dict(ns))
+                        per[name] = sorted(str(x) for x in e.free_symbols)
+                        ss |= set(per[name])
+                    tab[key] = {"all": sorted(ss), "per": per}
+            out["syms"].append(tab)
+            out["ivs"].append({k: exact_eval(v, {}) if not sympy.parsing.sympy_parser.parse_expr(str(v), global_dict=dict(ns)).free_symbols else None for k, v in s["initial_values"].items()})
+            pv = {}
+            for k, v in (s.get("parameters") or {}).items():
+                try:
+                    pv[k] = float(sympy.parsing.sympy_parser.parse_expr(str(v), global_dict=dict(ns)))
+                except Exception:
+                    pv[k] = None
+            out["params"].append(pv)
+        return out
+    finally:
+        Config.config.clear()
+        Config.config.update(defaults)
